@@ -14,6 +14,9 @@ spec = importlib.util.spec_from_loader("check_main", loader)
 m = importlib.util.module_from_spec(spec); loader.exec_module(m)
 rc, out = m.ensure_driver()
 print(out[-2000:]); assert rc == 0, "driver build failed"
+from checklib import realbin
+rc, out = realbin.ensure_ruler()
+print("\n".join(out.split("\n")[-3:])); assert rc == 0, "ruler binary build failed"
 rc, out = m.ensure_harness()
 print("\n".join(out.split("\n")[-5:])); assert rc == 0, "harness build failed"
 PY
